@@ -113,6 +113,23 @@ def replay_loader(case) -> dict:
             fails.append(dict(desc, clause="Reproducible", set=i))
     if abs(float(r.fsc["freq"][0]) - 0.5 * dfq) > 1e-6:
         fails.append(dict(desc, clause="ShellFrequency"))
+    # the three entry points and the argument forms of the mask describe the same computation
+    f1 = engine.api(loader.fsc, mask=mask, seed=case["seed"], n_set=case["n_set"], dfreq=dfq)
+    fa, avg = engine.api(loader.fsc_with_average, mask=mask, seed=case["seed"], n_set=case["n_set"], dfreq=dfq, zero_norm=case["zero_norm"])
+    ref1 = engine.api(loader.fsc_with_halfmaps, mask=mask, seed=case["seed"], n_set=case["n_set"], dfreq=dfq, zero_norm=True, squeeze=False)
+    if f1.columns != ref1.fsc.columns or not np.allclose(f1.to_numpy(), ref1.fsc.to_numpy(), atol=1e-6, equal_nan=True):
+        fails.append(dict(desc, clause="FscEntryPointsAgree", entry="fsc"))
+    if fa.columns != r.fsc.columns or not np.allclose(fa.to_numpy(), r.fsc.to_numpy(), atol=1e-6, equal_nan=True):
+        fails.append(dict(desc, clause="FscEntryPointsAgree", entry="fsc_with_average"))
+    if not np.allclose(np.asarray(avg), (np.asarray(r.halfmaps[0][0]) + np.asarray(r.halfmaps[1][0])) / 2, atol=1e-5):
+        fails.append(dict(desc, clause="AverageIsMeanOfFirstHalfMaps"))
+    if mask is not None:
+        from acryo import pipe
+
+        rp = engine.api(loader.fsc_with_halfmaps, mask=pipe.from_array(mask, original_scale=float(loader.scale)), seed=case["seed"], n_set=case["n_set"],
+                        dfreq=dfq, zero_norm=case["zero_norm"], squeeze=False)
+        if not np.allclose(rp.fsc.to_numpy(), r.fsc.to_numpy(), atol=1e-6, equal_nan=True):
+            fails.append(dict(desc, clause="MaskAsProviderIsMaskAsArray"))
     # grouped FSC
     grp = loader.groupby("g")
     gf = engine.api(grp.fsc, mask=mask, seed=case["seed"], n_set=case["n_set"], dfreq=dfq)
